@@ -1104,6 +1104,17 @@ func (c *compiler) evalForExpression(node *ast.ForExpression) (interface{}, erro
 }
 
 func (c *compiler) evalBlockStatement(node *ast.BlockStatement) (interface{}, error) {
+	// the statement that owns this block is the current one again once the block
+	// has completed; on an error the failing inner statement stays recorded
+	owner := c.curStmt
+	res, err := c.evalBlockStatements(node)
+	if err == nil {
+		c.curStmt = owner
+	}
+	return res, err
+}
+
+func (c *compiler) evalBlockStatements(node *ast.BlockStatement) (interface{}, error) {
 	res := []interface{}{}
 	for _, s := range node.Statements {
 		i, err := c.evalStatement(s)
